@@ -142,10 +142,8 @@ func decodeBinaryValue(reader ByteRuneReader, flag int32) ([]byte, error) {
 		if err != nil {
 			return nil, err
 		}
-		if newLength < length {
-			buf = buf[:newLength]
-			length = newLength
-		}
+		// every chunk carries its own length: it may be longer than the first one
+		buf = make([]byte, newLength)
 	}
 
 	return byteBuf.Bytes(), nil
